@@ -159,7 +159,8 @@ def run(ctx):
     for e in adds:
         fs = Q.closure(eng, eng.block_facts.get((e["frame"], e["block"]), frozenset()))
         for t, rel, v in fs:
-            ps = Q.params(Q.leaves(t))
+            # (conditions that mention the batch only through its length / the position counter are iteration bounds)
+            ps = Q.params(Q.atoms(t, stop_ops={"len", "len_iter", "range_elem"}))
             if any(p.startswith("c") or p.startswith("d") or p.startswith("b") for p in ps) and not (t.op == "discr" and Q.contains(t, lambda z: z.op == "range_elem")):
                 # a condition on the points themselves (iteration bounds `i < c.len()` are fine)
                 if not (t.op in ("lt", "le", "eq", "ne") and all(x.op in ("len", "int", "range_elem") or Q.contains(x, lambda z: z.op == "len") for x in t.args)):
